@@ -484,6 +484,65 @@ def check_once(ctx, out, dv, rule="C11.once"):
     out.inst(rule, n, 4, ["pop -> detect -> Some: consume | None: undetected.push; after block: worklist.extend(undetected); break only if undetected.is_empty()"])
 
 
+FLAGS = {
+    "disabled_validators": {"long": "disable", "short": "d", "parser": "parse_validator"},
+    "enabled_validators": {"long": "enable", "short": "e", "parser": "parse_validator"},
+    "extensions": {"long": "extension", "short": "E", "parser": "parse_extensions"},
+    "ignore": {"long": "ignore", "short": None, "parser": None},
+}
+
+
+def check_flags(ctx, out):
+    """The clap wiring (derive output, read from the expanded MIR): flag name -> argument id -> struct
+    field, value parser and Append action (repetition accumulates)."""
+    n = 0
+    aug = [b for b in ctx.facts.bodies.values() if b.promoted is None and re.search(r"flags::Args as clap::Args>::augment_args$", b.id)]
+    fam = [b for b in ctx.facts.bodies.values() if b.promoted is None and re.search(r"flags::Args as clap::FromArgMatches>::from_arg_matches_mut$", b.id)]
+    if len(aug) != 1 or len(fam) != 1:
+        out.inst("C14.flags", 0, 12, note="clap derive output for Args not found")
+        return
+    a = aug[0]
+    E = ctx.expr(a)
+    got = {}
+    for bi, t in a.calls():
+        if callee_matches(t, r"^clap::Arg::long$"):
+            e = E.operand(t["args"][0])
+            ids = [x[2][0][1] for x in walk(e) if x[0] == "call" and x[1].endswith("clap::Arg::new") and x[2] and x[2][0][0] == "const"]
+            shorts = [x[2][1][1] for x in walk(e) if x[0] == "call" and x[1].endswith("clap::Arg::short") and len(x[2]) > 1 and x[2][1][0] == "const"]
+            parsers = [y[1][3:].split("::")[-1] for x in walk(e) if x[0] == "call" and x[1].endswith("ValueParser::new") for y in x[2] if y[0] == "const" and isinstance(y[1], str) and y[1].startswith("fn:")]
+            actions = [x[1].split("::")[-1] for x in walk(e) if x[0] == "agg" and "ArgAction" in x[1]]
+            long_name = util.const_val(ctx, a, t["args"][1])
+            if len(ids) == 1:
+                got[ids[0]] = {"long": long_name, "short": chr(shorts[0]) if shorts and isinstance(shorts[0], int) else None, "parser": parsers[0] if parsers else None, "action": actions[0] if actions else None}
+    for fid, want in FLAGS.items():
+        g = got.get(fid)
+        if g is None:
+            out.viol("C14.flags", "C14.flags|%s|missing" % fid, ctx.where(a), "no long flag is defined for argument `%s`" % fid)
+            continue
+        for k in ("long", "short", "parser"):
+            if g.get(k) == want[k]:
+                n += 1
+            else:
+                out.viol("C14.flags", "C14.flags|%s|%s" % (fid, k), ctx.where(a), "argument `%s` has %s=%r; documented %r" % (fid, k, g.get(k), want[k]))
+        if g.get("action") != "Append":
+            out.viol("C14.flags", "C14.flags|%s|action" % fid, ctx.where(a), "argument `%s` does not accumulate repeated uses (action %s)" % (fid, g.get("action")))
+    # struct field <- argument id of the same name
+    f = fam[0]
+    for bi, j, s in f.assigns():
+        rv = s["rv"]
+        if rv["k"] == "agg" and rv.get("path") == "blockwatch::flags::Args":
+            for fname, op in zip(rv["fields"], rv["ops"]):
+                if fname == "command":
+                    continue
+                fe = ctx.expr(f).operand(op)
+                ids = {a[1] for x in walk(fe) if x[0] == "call" and re.search(r"clap::ArgMatches::(remove_many|remove_one|get_many|get_one)$", x[1]) for a in x[2] if a[0] == "const" and isinstance(a[1], str)}
+                if ids == {fname}:
+                    n += 1
+                else:
+                    out.viol("C14.flags", "C14.flags|field|%s" % fname, ctx.where(f, s["span"]), "field `%s` of Args is filled from argument id(s) %s" % (fname, sorted(ids)))
+    out.inst("C14.flags", n, 16, ["-d/--disable->disabled_validators, -e/--enable->enabled_validators, -E/--extension->extensions, --ignore->ignore (Append, value parsers)"], exhaustive=True)
+
+
 def run(ctx, out, tier):
     check_names(ctx, out)
     dv = detect_fn(ctx)
@@ -494,6 +553,7 @@ def run(ctx, out, tier):
         check_args(ctx, out, dv)
         check_once(ctx, out, dv, rule="C14.once")
     check_reject(ctx, out)
+    check_flags(ctx, out)
     shared.sh_main(ctx, out)
     return meta()
 
